@@ -58,7 +58,7 @@ def statistic_problems(mode, o):
     else:
         n0 = cc[0]["args"][0]
         cands = [cc[-1]["args"][0]]
-        ok = any(rho == S("pow", S("/", nk, n0), Fraction(1, its)) for nk in cands)
+        ok = any(sr.scalar_equal(rho, S("pow", S("/", nk, n0), Fraction(1, its))) for nk in cands)
         if not ok:
             probs.append("meanResidualReductionFactor: expected (||r_k|| / ||r_0||)^(1/%d) with the first and the last residual norm measured in this solve, got %s" % (its, sr.describe(rho)[:300]))
     for name, head in (("exactErrorWeightedEuclidean", "errW"), ("exactErrorInfinity", "errInf")):
